@@ -23,6 +23,8 @@ import JPV.Spec.Valid
 import JPV.Props.C05
 import JPV.Props.C13
 import JPV.Proofs.CompleteStructural
+import JPV.Proofs.Cf.CompleteKw
+import JPV.Proofs.Cf.Refute
 namespace JPV.Props
 open JPV
 
@@ -32,6 +34,22 @@ def C03_statement : Prop :=
   ∀ (env : Impl.Env) (s : Str) (c : List Spec.CSegment),
     Spec.judge (sigsOfEnv env) env.minIdx env.maxIdx s = (.valid, some c) →
     Impl.compile env s = .ok (Spec.abstractSegs c)
+
+/-- proved: the WHOLE language, filters included — blanks wherever the grammar allows them, redundant
+parentheses, `!`, both quote styles, every number spelling, nested filters, function calls with the
+well-typedness checks — for every environment none of whose registered function names begins with a keyword
+literal (`true`, `false`, `null`): `C03_statement` restricted to such environments.  (The restriction
+cannot be dropped on the code as it stood when this was proved: `C03_statement_refuted_D33`.) -/
+theorem C03_kwfree (env : Impl.Env) (hkw : Proofs.Cf.KwFree env) (s : Str) (c : List Spec.CSegment)
+    (hj : Spec.judge (sigsOfEnv env) env.minIdx env.maxIdx s = (.valid, some c)) :
+    Impl.compile env s = .ok (Spec.abstractSegs c) :=
+  Proofs.compile_complete_kwfree env hkw s c hj
+
+/-- the built-in functions satisfy the restriction -/
+theorem C03_builtin (s : Str) (c : List Spec.CSegment)
+    (hj : Spec.judge (sigsOfEnv builtinEnv) builtinEnv.minIdx builtinEnv.maxIdx s = (.valid, some c)) :
+    Impl.compile builtinEnv s = .ok (Spec.abstractSegs c) :=
+  C03_kwfree builtinEnv (Proofs.kwFree_of_b _ (by decide +kernel)) s c hj
 
 /-- proved: the filter-free language, every lexical form -/
 theorem C03_structural (env : Impl.Env) (s : Str) (c : List Spec.CSegment)
